@@ -55,6 +55,7 @@ struct Run : ContBase {
         if (s.chance(3, 4)) return fixed[s.range(0, 15)];
         if (!loadable_case && s.chance(1, 4)) return "";
         size_t len = (size_t)s.range(1, 6); std::string r;
+        if (s.chance(1, 8)) { static const size_t edge[] = {64, 128, 256, 512, 1024, 2048}; len = edge[s.range(0, 5)] + (size_t)s.range(0, 2) - 1; }   // long names around power-of-two sizes
         for (size_t i = 0; i < len; i++) r.push_back("abAB01._-xX"[s.range(0, 10)]);
         return r;
     }
